@@ -219,7 +219,10 @@ fn atom(u: &mut Unstructured, kind: char, min: i64, max: i64) -> arbitrary::Resu
         'u' => (0, u32::MAX as i64),
         _ => (i64::MIN, i64::MAX),
     };
-    let v = match u.below(12)? {
+    let v = match u.below(13)? {
+        // a valid value plus one radix: the field's own modulus or a decimal / binary packing unit (day
+        // 105 = 1 month + day 5 in a month*100 + day key; hour 24 + h; minute 60 + m)
+        12 => u.range_i64(min.max(0), max.max(min.max(0)))? + *u.choose(&[max - min + 1, 100, 1_000, 256, 65_536, 60, 24, 12])?,
         0 => min,
         1 => max,
         2 => max + 1,
@@ -314,7 +317,7 @@ impl Prop for Ctors {
         Ok(c)
     }
     fn check(c: &Case, cx: &mut Cx) -> Verdict {
-        if c.api > 11 || !c.recv.valid() || c.off.abs() > 86_399 {
+        if c.api > 11 || !c.recv.valid() || c.off.unsigned_abs() > 86_399 {
             return Verdict::Skip("malformed case");
         }
         let max_field = match c.api {
@@ -512,7 +515,7 @@ impl Prop for SettersAtRangeEnds {
         Ok(EdgeCase { recv, off, field, v })
     }
     fn check(c: &EdgeCase, cx: &mut Cx) -> Verdict {
-        if !c.recv.valid() || c.off.abs() > 86_399 || c.field > 9 || (c.field == 0 && i32::try_from(c.v).is_err()) || (c.field != 0 && u32::try_from(c.v).is_err()) {
+        if !c.recv.valid() || c.off.unsigned_abs() > 86_399 || c.field > 9 || (c.field == 0 && i32::try_from(c.v).is_err()) || (c.field != 0 && u32::try_from(c.v).is_err()) {
             return Verdict::Skip("malformed case");
         }
         let utc = c.recv.i();
